@@ -184,7 +184,7 @@ theorem firstIdx_eq_of (p : Nat → Bool) (b r : Nat) (hr : r ≤ b) (h1 : ∀ j
 def ruleStop (s : List Outcome) (rule : List Int) (k : Nat) : Bool :=
   (outcomeAt s k).isNone || decide (rule.getD k 0 ≤ 0)
 
-def ruleResult (s : List Outcome) (rule : List Int) (c : Nat) (sl : List Int) : Run :=
+def ruleResult (s : List Outcome) (c : Nat) (sl : List Int) : Run :=
   match outcomeAt s c with
   | none => ⟨c + 1, c, sl, .nil⟩
   | some e => ⟨c + 1, c + 1, sl, .err e⟩
@@ -193,7 +193,7 @@ theorem ruleLoop_run (s : List Outcome) (rule : List Int) (c : Nat) (hc : ruleSt
     ∀ (fuel i : Nat) (sl : List Int), i ≤ c → (∀ j, i ≤ j → j < c → ruleStop s rule j = false) →
       c - i < fuel →
       ruleLoop s rule fuel i sl =
-        ruleResult s rule c (sl ++ (List.range' i (c - i)).map (fun k => rule.getD k 0)) := by
+        ruleResult s c (sl ++ (List.range' i (c - i)).map (fun k => rule.getD k 0)) := by
   intro fuel
   induction fuel with
   | zero => intro i sl _ _ h; omega
@@ -206,9 +206,10 @@ theorem ruleLoop_run (s : List Outcome) (rule : List Int) (c : Nat) (hc : ruleSt
       cases ho : outcomeAt s i with
       | none => simp
       | some e =>
-        have : rule.getD i 0 ≤ 0 := by
+        have : rule[i]?.getD 0 ≤ 0 := by
           unfold ruleStop at hc; rw [ho] at hc; simpa using hc
-        simp [this]
+        simp
+        intro h; omega
     · have hstop := hgo i (Nat.le_refl _) (by omega)
       unfold ruleStop at hstop
       cases ho : outcomeAt s i with
@@ -230,7 +231,7 @@ theorem retryByRule_eq_spec (s : List Outcome) (rule : List Int) :
   have hle := firstIdx_le (ruleStop s rule) s.length
   rw [ruleLoop_run s rule _ hstop _ 0 [] (Nat.zero_le _)
     (fun j _ h2 => firstIdx_not _ _ j h2) (by omega)]
-  show ruleResult s rule _ _ = _
+  show ruleResult s _ _ = _
   unfold ruleResult
   simp only [List.nil_append, Nat.sub_zero, List.range_eq_range']
   rfl
@@ -286,17 +287,22 @@ theorem condLoop_run (s : List Outcome) (cond : Option (List Bool)) (ignore : Li
       | none => rw [ho] at hstop; simp at hstop
       | some e =>
         rw [ho] at hstop
-        have hig : ignored ignore e = false := by
-          cases h : ignored ignore e with
-          | false => rfl
-          | true => rw [h] at hstop; simp at hstop
-        have hmr : ¬ ((i : Int) ≥ mr) := by
-          rw [hig] at hstop; simpa using hstop
+        have hboth : ignored ignore e = false ∧ ¬ ((i : Int) ≥ mr) := by simpa using hstop
+        obtain ⟨hig, hmr⟩ := hboth
         simp only [hct, hig, hmr, if_false, Bool.true_eq_false, Bool.false_eq_true]
         rw [ih (i + 1) _ (by omega) (fun j h1 h2 => hgo j (by omega) h2) (by omega)]
         have : r - i = (r - (i + 1)) + 1 := by omega
         rw [this, List.range'_succ, List.map_cons, List.append_assoc]
         rfl
+
+theorem condStop_some (s : List Outcome) (cond : Option (List Bool)) (ignore : List Nat) (mr : Int) (k : Nat)
+    (e : Err) (h : outcomeAt s k = some e) :
+    condStop s cond ignore mr k = (!condAt cond k || (ignored ignore e || decide ((k : Int) ≥ mr))) := by
+  unfold condStop; rw [h]
+
+theorem ruleStop_some (s : List Outcome) (rule : List Int) (k : Nat) (e : Err) (h : outcomeAt s k = some e) :
+    ruleStop s rule k = decide (rule.getD k 0 ≤ 0) := by
+  unfold ruleStop; rw [h]; rfl
 
 theorem condStop_of_none (s : List Outcome) (cond : Option (List Bool)) (ignore : List Nat) (mr : Int) (k : Nat)
     (h : outcomeAt s k = none) : condStop s cond ignore mr k = true := by
@@ -311,5 +317,6 @@ theorem condLoop_eq_spec (s : List Outcome) (cond : Option (List Bool)) (ignore 
     (fun j _ h2 => firstIdx_not _ _ j h2) (by omega)]
   unfold MV.Spec.Retry.condRetry condResult
   simp only [List.nil_append, Nat.sub_zero, List.range_eq_range']
+  rfl
 
 end MV.Lemmas.Retry
